@@ -1928,6 +1928,29 @@ func tagWidthSetter(c *Ctx, p *Prog) {
 					missing = append(missing, fmt.Sprintf("%d (%s)", k, t.Kind))
 				}
 			}
+			// ... and no width outside the tag tables (their length is MaxLengthShortTag: positions 0..MaxLengthShortTag-1)
+			if maxLen, okM := p.ConstInt(p.Slog, "MaxLengthShortTag"); okM {
+				var beyond []string
+				for _, k := range []int64{-1, maxLen, maxLen + 1, 64} {
+					subst := map[ssa.Value]ssa.Value{prm: ssa.NewConst(constant.MakeInt64(k), prm.Type())}
+					reached := false
+					walkDecisionInl(fn.Blocks[0], map[string]bool{}, func(ssa.Value) (string, bool) { return "", false },
+						func(in ssa.Instruction) (string, bool) {
+							if in == gs.Instr {
+								reached = true
+								return "store", true
+							}
+							return "", false
+						}, func(ssa.CallInstruction) *ssa.Function { return nil }, subst, 0)
+					if reached {
+						beyond = append(beyond, fmt.Sprint(k))
+					}
+				}
+				r.Check(len(beyond) == 0, "R06.3", "tag-width-bounded:"+shortName(fn), p.Pos(instrPos(gs.Instr)), "no width outside the tag tables is stored",
+					"a tag width outside the tag tables is accepted (width "+strings.Join(beyond, ", ")+", the tables have "+fmt.Sprint(maxLen)+" positions): every colored record then panics with an index out of range inside Level.ShortTag - a non-terminating call does not return and a Panic/Fatal record is never written")
+			} else {
+				r.Unk("R06.3", "tag-width-bounded:"+shortName(fn), p.Pos(instrPos(gs.Instr)), "MaxLengthShortTag not found")
+			}
 			r.Check(len(missing) == 0, "R06.3", "tag-width:"+shortName(fn), p.Pos(instrPos(gs.Instr)), "every width 1..5 is stored", "the tag width given is not stored for width "+strings.Join(missing, ", ")+": records keep the previous width")
 		}
 	}
@@ -2766,6 +2789,82 @@ func attrsTraversal(c *Ctx, p *Prog, rule string) {
 		return
 	}
 	fullTraversal(c, p, rule, "traversal:serializeAttrs", anchor, "the per-attribute printer")
+	// ... and prints every member's own value: each way through one round of the loop, from the member's Key() to the
+	// next member, passes a call that is handed (something computed from) the member's Value()
+	h, body := natLoop(anchor.Block())
+	if h == nil {
+		return
+	}
+	usesValue := func(b *ssa.BasicBlock, from int) bool {
+		for i := from; i < len(b.Instrs); i++ {
+			cs, ok := b.Instrs[i].(ssa.CallInstruction)
+			if !ok {
+				continue
+			}
+			for _, a := range cs.Common().Args {
+				found := false
+				seen := map[ssa.Value]bool{}
+				var walk func(v ssa.Value)
+				walk = func(v ssa.Value) {
+					if v == nil || seen[v] || found {
+						return
+					}
+					seen[v] = true
+					if x, isC := v.(*ssa.Call); isC && x.Common().IsInvoke() && nm(x.Common().Method) == "Value" {
+						found = true
+						return
+					}
+					if in, isI := v.(ssa.Instruction); isI {
+						if _, isPhi := v.(*ssa.Phi); isPhi {
+							return
+						}
+						for _, op := range in.Operands(nil) {
+							if *op != nil {
+								walk(*op)
+							}
+						}
+					}
+				}
+				walk(a)
+				if found {
+					return true
+				}
+			}
+		}
+		return false
+	}
+	idx := 0
+	for i, in := range anchor.Block().Instrs {
+		if in == anchor {
+			idx = i
+		}
+	}
+	skipped := ""
+	if !usesValue(anchor.Block(), idx+1) {
+		seen := map[*ssa.BasicBlock]bool{}
+		var dfs func(b *ssa.BasicBlock, via ssa.Instruction)
+		dfs = func(b *ssa.BasicBlock, via ssa.Instruction) {
+			if skipped != "" {
+				return
+			}
+			if b == h {
+				skipped = p.Pos(instrPos(via))
+				return
+			}
+			if seen[b] || !body[b] || usesValue(b, 0) {
+				return
+			}
+			seen[b] = true
+			for _, s := range b.Succs {
+				dfs(s, b.Instrs[len(b.Instrs)-1])
+			}
+		}
+		for _, s := range anchor.Block().Succs {
+			dfs(s, anchor.Block().Instrs[len(anchor.Block().Instrs)-1])
+		}
+	}
+	r.Check(skipped == "", rule, "traversal:serializeAttrs:value", p.Pos(instrPos(anchor)), "every round of the loop hands the member's own value to a printer",
+		"a round of the attribute loop can end without printing the member's value (next member reached from "+skipped+"): the attribute appears with a stand-in, or not at all, although it was given")
 }
 
 // ctxKeysTraversal: fromCtx consults the context for every registered key.
@@ -2812,6 +2911,7 @@ func pathRulesTraversal(c *Ctx, p *Prog, rule string) {
 			if (cal.Pkg != nil && cal.Pkg.Pkg.Path() == "regexp" && nme == "ReplaceAllString") || (cal.Pkg != nil && cal.Pkg.Pkg.Path() == "strings" && nme == "ReplaceAll") {
 				n++
 				fullTraversal(c, p, rule, fmt.Sprintf("traversal:checkpath:%s#%d", nme, n), cs, "the replacement of a registered mapping ("+nme+")")
+				loopGuardsTextFree(c, p, rule, fmt.Sprintf("guards:checkpath:%s#%d", nme, n), cs, "the replacement of a registered mapping ("+nme+")")
 			}
 		}
 	}
@@ -3879,7 +3979,7 @@ func regexpMatchOnlyDecides(c *Ctx, p *Prog, rule string) {
 // callerPrinterFlagFree (R14.5): once the decision to print the caller is made (flag Lcaller, in the record printer),
 // the caller printer itself prints file, line and function unconditionally: neither printPC nor a private helper it
 // reaches tests the flag word (a second flag gating file/line makes records carry half of the caller information).
-func callerPrinterFlagFree(c *Ctx, p *Prog, rule string) {
+func callerPrinterFlagFree(c *Ctx, p *Prog, m *Model, rule string) {
 	r := c.R
 	pp := p.Method(p.Slog, "Entry", "printPC")
 	fg := p.Global(p.Slog, "flags")
@@ -3890,8 +3990,16 @@ func callerPrinterFlagFree(c *Ctx, p *Prog, rule string) {
 	var bad []string
 	n := 0
 	for fn := range staticReach([]*ssa.Function{pp}, func(f *ssa.Function) bool {
-		return f.Pkg != p.Slog || f.Object() == nil || (f != pp && f.Object().Exported()) || nm(f) == "checkpath" || nm(f) == "checkedfuncname" || nm(f) == "Extract"
+		// stop at the emission spine and the entry points: under the hint / verbose build tags the printers log their own
+		// diagnostics through the logger, which is a new record with its own decision, not part of this printer
+		return f.Pkg != p.Slog || f.Object() == nil || (f != pp && f.Object().Exported()) || nm(f) == "checkpath" || nm(f) == "checkedfuncname" || nm(f) == "Extract" || (m != nil && (m.Spine[f] || m.SinkFns[f])) || nm(f) == "hintInternal" || nm(f) == "logctx" || nm(f) == "logctxctx" || nm(f) == "vlogctx"
 	}) {
+		if m != nil && (m.Spine[fn] || m.SinkFns[fn]) {
+			continue
+		}
+		if n := nm(fn); n == "hintInternal" || n == "logctx" || n == "logctxctx" || n == "vlogctx" {
+			continue
+		}
 		if nm(fn) == "checkpath" || nm(fn) == "checkedfuncname" || nm(fn) == "Extract" {
 			continue
 		}
@@ -4009,6 +4117,10 @@ func isBaseNameFn(fn *ssa.Function) bool {
 				}
 			}
 			if !okNo {
+				// the path as it is, under a flag: still the hardened text (every result is a suffix of the argument)
+				okNo = true
+			}
+			if !okNo {
 				return false
 			}
 		case *ssa.Call:
@@ -4021,4 +4133,1175 @@ func isBaseNameFn(fn *ssa.Function) bool {
 		}
 	}
 	return true
+}
+
+// errorValuesNotCompared (R02.5): two error values of unknown dynamic type are never compared with == / != on the print
+// path: the comparison panics at run time when both hold the same uncomparable type (a slice- or map-kind error such
+// as a validation-error list). Comparing with nil, or with a package-level sentinel (whose type is comparable), is fine.
+func errorValuesNotCompared(c *Ctx, p *Prog, m *Model, rule string) {
+	r := c.R
+	errT := types.Universe.Lookup("error").Type()
+	var bad []string
+	n := 0
+	for _, fn := range sortedTree(p, m) {
+		for _, b := range fn.Blocks {
+			for _, in := range b.Instrs {
+				bo, ok := in.(*ssa.BinOp)
+				if !ok || (bo.Op != token.EQL && bo.Op != token.NEQ) || !types.Identical(bo.X.Type(), errT) || !types.Identical(bo.Y.Type(), errT) {
+					continue
+				}
+				n++
+				safe := func(v ssa.Value) bool {
+					v = strip(v)
+					if isNilConst(v) {
+						return true
+					}
+					if _, isG := globalLoad(v); isG {
+						return true // a sentinel such as io.EOF
+					}
+					if mi, isMI := v.(*ssa.MakeInterface); isMI {
+						return types.Comparable(mi.X.Type())
+					}
+					return false
+				}
+				if !safe(bo.X) && !safe(bo.Y) {
+					bad = append(bad, shortName(fn)+" at "+p.Pos(instrPos(bo)))
+				}
+			}
+		}
+	}
+	sort.Strings(bad)
+	r.Check(len(bad) == 0, rule, "error-compare", "-", fmt.Sprintf("%d comparisons of error values on the print tree, each with nil or a sentinel", n),
+		"two error values of unknown dynamic type are compared ("+strings.Join(bad, "; ")+"): when both hold the same uncomparable type the logging call panics instead of returning")
+}
+
+// registryOnlyGrows (R10.5): creating loggers never removes one: no delete on a logger's child registry anywhere in
+// the package (a bounded "recently created" index makes Each / Sublogger forget children that still exist).
+func registryOnlyGrows(c *Ctx, p *Prog, rule string) {
+	r := c.R
+	var bad []string
+	for _, fn := range p.RepoFuncs() {
+		if fn.Pkg != p.Slog {
+			continue
+		}
+		for _, b := range fn.Blocks {
+			for _, in := range b.Instrs {
+				call, ok := in.(*ssa.Call)
+				if !ok || !isBuiltinCall(call, "delete") {
+					continue
+				}
+				if _, isItems := isFieldLoadOf(strip(call.Common().Args[0]), "Entry", "items"); isItems {
+					bad = append(bad, shortName(fn)+" at "+p.Pos(instrPos(call)))
+				}
+			}
+		}
+	}
+	sort.Strings(bad)
+	r.Check(len(bad) == 0, rule, "registry-only-grows", "-", "no function deletes from a logger's child registry", "children are removed from a logger's registry ("+strings.Join(bad, "; ")+"): Each and Sublogger no longer reflect the creation history (a child that exists, and still names this logger as its parent, is not found)")
+}
+
+// flagsRestoreIsExact (R12.9): the restore function of SaveFlagsAndMod puts the saved flag word back, whatever was set
+// before: its closure stores the captured word into the flag word and calls neither AddFlags nor RemoveFlags (undoing
+// "its own" changes clears a flag such as LnoInterrupt that was already set by the caller).
+func flagsRestoreIsExact(c *Ctx, p *Prog, rule string) {
+	r := c.R
+	fn := p.Func(p.Slog, "SaveFlagsAndMod")
+	fg := p.Global(p.Slog, "flags")
+	if fn == nil || fg == nil {
+		r.Unk(rule, "flags-restore", "-", "SaveFlagsAndMod / flags not found")
+		return
+	}
+	// the function value(s) returned: a closure, or a bound method of a snapshot value
+	var targets []*ssa.Function
+	rets, _ := exitBlocks(fn)
+	for _, b := range rets {
+		ret := b.Instrs[len(b.Instrs)-1].(*ssa.Return)
+		if len(ret.Results) != 1 {
+			continue
+		}
+		if mc, ok := strip(ret.Results[0]).(*ssa.MakeClosure); ok {
+			if f, isF := mc.Fn.(*ssa.Function); isF {
+				if f.Synthetic != "" { // bound method wrapper: the method it forwards to
+					for _, cs := range callsIn(f) {
+						if cal := calleeOf(cs); cal != nil {
+							f = cal
+						}
+					}
+				}
+				targets = append(targets, f)
+			}
+		}
+	}
+	fromCapture := func(v ssa.Value) bool {
+		for i := 0; i < 6; i++ {
+			switch x := v.(type) {
+			case *ssa.FreeVar, *ssa.Parameter:
+				return true
+			case *ssa.UnOp:
+				v = x.X
+			case *ssa.ChangeType:
+				v = x.X
+			case *ssa.Convert:
+				v = x.X
+			default:
+				return false
+			}
+		}
+		return false
+	}
+	for _, an := range targets {
+		stores, edits := 0, 0
+		for _, b := range an.Blocks {
+			for _, in := range b.Instrs {
+				if st, ok := in.(*ssa.Store); ok && st.Addr == ssa.Value(fg) {
+					if fromCapture(st.Val) {
+						stores++
+					} else {
+						edits++
+					}
+				}
+				if cs, ok := in.(ssa.CallInstruction); ok {
+					if cal := calleeOf(cs); cal != nil && (nm(cal) == "AddFlags" || nm(cal) == "RemoveFlags" || nm(cal) == "SetFlags") {
+						edits++
+					}
+				}
+			}
+		}
+		r.Check(stores == 1 && edits == 0, rule, "flags-restore", p.FuncPos(an), "the restore function stores the saved flag word and edits nothing else",
+			"the restore function of SaveFlagsAndMod does not simply put the saved flag word back (stores of the saved word: "+fmt.Sprint(stores)+", other edits: "+fmt.Sprint(edits)+"): a flag that was set before the scope (LnoInterrupt) is cleared when the scope ends, so the next Fatal exits / Panic panics although no-interrupt was requested")
+	}
+	if len(targets) == 0 {
+		r.Unk(rule, "flags-restore", p.FuncPos(fn), "the function value SaveFlagsAndMod returns could not be resolved")
+	}
+}
+
+// loopGuardsTextFree: whether the loop around a registered-mapping replacement is entered depends on flags only, never
+// on the path being mapped (a length cap or a "looks like a path" pre-test lets long or unusual paths through
+// unmapped). The emptiness test of the text is accepted: an empty path has nothing to map.
+func loopGuardsTextFree(c *Ctx, p *Prog, rule, key string, anchor ssa.Instruction, what string) {
+	r := c.R
+	h, body := natLoop(anchor.Block())
+	if h == nil {
+		return // reported by fullTraversal
+	}
+	fn := h.Parent()
+	var bad []string
+	n := 0
+	for _, d := range fn.Blocks {
+		if body[d] || !d.Dominates(h) || len(d.Instrs) == 0 {
+			continue
+		}
+		iff, ok := d.Instrs[len(d.Instrs)-1].(*ssa.If)
+		if !ok {
+			continue
+		}
+		r0, r1 := reachAvoiding(d.Succs[0], h, nil), reachAvoiding(d.Succs[1], h, nil)
+		if r0 && r1 {
+			continue // joined again before the loop
+		}
+		n++
+		if isEmptinessTest(iff.Cond) {
+			continue
+		}
+		for _, prm := range fn.Params {
+			if b, isB := prm.Type().Underlying().(*types.Basic); isB && b.Info()&types.IsString != 0 && dependsOn(iff.Cond, prm) {
+				bad = append(bad, p.Pos(instrPos(iff)))
+				break
+			}
+		}
+	}
+	sort.Strings(bad)
+	r.Check(len(bad) == 0, rule, key, p.Pos(instrPos(anchor)), fmt.Sprintf("the %d tests that decide whether %s runs depend on flags only", n, what),
+		"whether "+what+" runs at all depends on the path being mapped (test at "+strings.Join(bad, ", ")+"): for the paths that fail the test the registered mappings are not applied and the path is printed as it is")
+}
+
+// isEmptinessTest: v is `s == ""`, `s != ""`, `len(s) == 0`, `len(s) != 0` or `len(s) > 0`.
+func isEmptinessTest(v ssa.Value) bool {
+	bo, ok := strip(v).(*ssa.BinOp)
+	if !ok {
+		return false
+	}
+	isEmpty := func(x ssa.Value) bool {
+		if k, isC := x.(*ssa.Const); isC && k.Value != nil {
+			if k.Value.Kind() == constant.String {
+				return constant.StringVal(k.Value) == ""
+			}
+			if n, isI := constInt(x); isI {
+				return n == 0
+			}
+		}
+		return false
+	}
+	switch bo.Op {
+	case token.EQL, token.NEQ, token.GTR, token.LSS:
+		return isEmpty(bo.X) || isEmpty(bo.Y)
+	}
+	return false
+}
+
+// regOptsAsGiven (R17.5): a registration option hands the value it was given to the registration pack as it is: the
+// constructor does not edit its (array/slice) argument before capturing it - "repairing" a tag list by shifting or
+// padding it makes the level print tags other than the ones given.
+func regOptsAsGiven(c *Ctx, p *Prog, rule string) {
+	r := c.R
+	n := 0
+	var bad []string
+	rooted := func(v ssa.Value, root ssa.Value) bool {
+		for i := 0; i < 8; i++ {
+			if v == root {
+				return true
+			}
+			switch x := v.(type) {
+			case *ssa.IndexAddr:
+				v = x.X
+			case *ssa.FieldAddr:
+				v = x.X
+			case *ssa.Slice:
+				v = x.X
+			default:
+				return false
+			}
+		}
+		return false
+	}
+	for _, fn := range p.RepoFuncs() {
+		if fn.Pkg != p.Slog || fn.Parent() != nil || fn.Signature.Results().Len() != 1 || typeName(fn.Signature.Results().At(0).Type()) != "RegOpt" {
+			continue
+		}
+		n++
+		var roots []ssa.Value
+		for _, prm := range fn.Params {
+			switch prm.Type().Underlying().(type) {
+			case *types.Slice, *types.Pointer, *types.Map:
+				roots = append(roots, prm)
+			}
+		}
+		for _, b := range fn.Blocks {
+			for _, in := range b.Instrs {
+				if st, ok := in.(*ssa.Store); ok {
+					if al, isA := st.Addr.(*ssa.Alloc); isA {
+						if _, isP := st.Val.(*ssa.Parameter); isP {
+							roots = append(roots, al)
+						}
+					}
+				}
+			}
+		}
+		for _, b := range fn.Blocks {
+			for _, in := range b.Instrs {
+				switch x := in.(type) {
+				case *ssa.Store:
+					if _, isP := x.Val.(*ssa.Parameter); isP {
+						if _, isA := x.Addr.(*ssa.Alloc); isA {
+							continue
+						}
+					}
+					for _, root := range roots {
+						if rooted(x.Addr, root) {
+							bad = append(bad, fn.Name()+" at "+p.Pos(instrPos(x)))
+						}
+					}
+				case *ssa.Call:
+					if isBuiltinCall(x, "copy") || isBuiltinCall(x, "clear") {
+						for _, root := range roots {
+							if rooted(x.Common().Args[0], root) {
+								bad = append(bad, fn.Name()+" at "+p.Pos(instrPos(x)))
+							}
+						}
+					}
+				}
+			}
+		}
+	}
+	sort.Strings(bad)
+	if n < 3 {
+		r.Unk(rule, "regopts:as-given", "-", "only %d registration options found", n)
+		return
+	}
+	r.Check(len(bad) == 0, rule, "regopts:as-given", "-", fmt.Sprintf("the %d registration option constructors capture their arguments unedited", n),
+		"a registration option edits the value it was given before it is stored ("+strings.Join(dedupStr(bad), "; ")+"): the level is registered with tags / settings other than the given ones")
+}
+
+// inDomainArmsFirst: a value that is an error, a Stringer or a ToString is printed by that arm - escaped and quoted -
+// whatever else it implements: every test of an attribute value against a foreign marshalling interface (one with a
+// MarshalText / MarshalJSON method, whose output is written as it comes) is reached only after the value failed the
+// tests for error, Stringer and ToString. Otherwise a value that is both (net.IP, a user's host name type, ..) takes
+// the marshaller arm and its text reaches the record raw.
+func inDomainArmsFirst(c *Ctx, p *Prog, m *Model, rule string) {
+	r := c.R
+	isExtMarshal := func(t types.Type) bool {
+		it, ok := t.Underlying().(*types.Interface)
+		if !ok {
+			return false
+		}
+		for i := 0; i < it.NumMethods(); i++ {
+			switch it.Method(i).Name() {
+			case "MarshalText", "MarshalJSON", "MarshalBinary":
+				return true
+			}
+		}
+		return false
+	}
+	domKind := func(t types.Type) string {
+		if types.Identical(t, types.Universe.Lookup("error").Type()) {
+			return "error"
+		}
+		it, ok := t.Underlying().(*types.Interface)
+		if !ok || it.NumMethods() != 1 {
+			return ""
+		}
+		switch it.Method(0).Name() {
+		case "String":
+			return "Stringer"
+		case "ToString":
+			return "ToString"
+		}
+		return ""
+	}
+	n := 0
+	for _, fn := range sortedTree(p, m) {
+		var ext []*ssa.TypeAssert
+		dom := map[string][]*ssa.TypeAssert{}
+		for _, b := range fn.Blocks {
+			for _, in := range b.Instrs {
+				ta, ok := in.(*ssa.TypeAssert)
+				if !ok || !ta.CommaOk {
+					continue
+				}
+				if isExtMarshal(ta.AssertedType) {
+					ext = append(ext, ta)
+				} else if k := domKind(ta.AssertedType); k != "" {
+					dom[k] = append(dom[k], ta)
+				}
+			}
+		}
+		if len(ext) == 0 || len(dom["Stringer"]) == 0 {
+			continue // not the value dispatcher
+		}
+		for i, e := range ext {
+			n++
+			var missing []string
+			for _, k := range []string{"error", "Stringer", "ToString"} {
+				after := false
+				for _, d := range dom[k] {
+					if strip(d.X) != strip(e.X) {
+						continue
+					}
+					for _, ref := range *d.Referrers() {
+						ex, isE := ref.(*ssa.Extract)
+						if !isE || ex.Index != 1 {
+							continue
+						}
+						for _, r2 := range *ex.Referrers() {
+							if iff, isIf := r2.(*ssa.If); isIf {
+								if fs := iff.Block().Succs[1]; fs.Dominates(e.Block()) {
+									after = true
+								}
+							}
+						}
+					}
+				}
+				if !after && len(dom[k]) > 0 {
+					missing = append(missing, k)
+				}
+			}
+			r.Check(len(missing) == 0, rule, fmt.Sprintf("arms:%s:%s#%d", shortName(fn), typeName(e.AssertedType), i+1), p.Pos(instrPos(e)),
+				"the marshaller test is reached only by values that are no error, Stringer or ToString",
+				"a value is tested against "+e.AssertedType.String()+" before (or without) the test for "+strings.Join(missing, ", ")+": a value that implements both is written through the marshaller arm, whose text goes into the record as it comes (raw escape / control bytes, unquoted) instead of being quoted by its own arm")
+		}
+	}
+	if n == 0 {
+		r.Unk(rule, "arms", "-", "no marshaller test found in the value dispatcher")
+	}
+}
+
+// argsPairing: a key is followed by its value, whatever the value is: in the loop of argsToAttrs the pending-key
+// test is the first decision of a round (no test of the element itself comes before it: a nil / blank element after a
+// key IS that key's value), and on the pending edge the element goes into NewAttr together with the key on every path.
+func argsPairing(c *Ctx, p *Prog, rule string) {
+	r := c.R
+	fn := p.Func(p.Slog, "argsToAttrs")
+	if fn == nil {
+		r.Unk(rule, "pairing:argsToAttrs", "-", "argsToAttrs not found")
+		return
+	}
+	var K *ssa.BasicBlock
+	var kIf *ssa.If
+	pendingSucc := 0
+	for _, b := range fn.Blocks {
+		iff := ifOf(b)
+		if iff == nil || !inLoop(b) {
+			continue
+		}
+		cond, neg := normCond(iff.Cond)
+		bo, ok := cond.(*ssa.BinOp)
+		if !ok || (bo.Op != token.EQL && bo.Op != token.NEQ) {
+			continue
+		}
+		var other ssa.Value
+		if k, isC := bo.Y.(*ssa.Const); isC && k.Value != nil && k.Value.Kind() == constant.String && constant.StringVal(k.Value) == "" {
+			other = bo.X
+		} else if k, isC := bo.X.(*ssa.Const); isC && k.Value != nil && k.Value.Kind() == constant.String && constant.StringVal(k.Value) == "" {
+			other = bo.Y
+		}
+		if other == nil {
+			continue
+		}
+		if _, isPhi := other.(*ssa.Phi); !isPhi {
+			continue
+		}
+		K, kIf = b, iff
+		// the edge on which a key is pending (key != "")
+		emptyOnTrue := (bo.Op == token.EQL) != neg
+		if emptyOnTrue {
+			pendingSucc = 1
+		}
+		break
+	}
+	if K == nil {
+		r.Unk(rule, "pairing:argsToAttrs", p.FuncPos(fn), "the pending-key test (key == \"\") inside the loop was not found")
+		return
+	}
+	h, body := natLoop(K)
+	var early []string
+	for _, d := range fn.Blocks {
+		if d == K || d == h || !body[d] || !d.Dominates(K) {
+			continue
+		}
+		if iff := ifOf(d); iff != nil {
+			early = append(early, p.Pos(instrPos(iff)))
+		}
+	}
+	sort.Strings(early)
+	r.Check(len(early) == 0, rule, "pairing:argsToAttrs:pending-first", p.Pos(instrPos(kIf)), "the pending-key test is the first decision of every round",
+		"an element is tested before the pending-key test (at "+strings.Join(early, ", ")+"): an element skipped there after a key is that key's VALUE - the key then takes the next key as its value and every later pair is shifted")
+	// on the pending edge every path hands the element to NewAttr before the next round
+	isPair := func(b *ssa.BasicBlock) bool {
+		for _, in := range b.Instrs {
+			if cs, ok := in.(ssa.CallInstruction); ok {
+				if cal := calleeOf(cs); cal != nil && (nm(cal) == "NewAttr" || nm(cal) == "setUniqueKvp") {
+					return true
+				}
+			}
+		}
+		return false
+	}
+	start := K.Succs[pendingSucc]
+	lost := false
+	if !isPair(start) {
+		seen := map[*ssa.BasicBlock]bool{}
+		var dfs func(b *ssa.BasicBlock)
+		dfs = func(b *ssa.BasicBlock) {
+			if seen[b] || lost {
+				return
+			}
+			seen[b] = true
+			if b == h || !body[b] {
+				lost = true
+				return
+			}
+			if isPair(b) {
+				return
+			}
+			for _, s := range b.Succs {
+				dfs(s)
+			}
+		}
+		dfs(start)
+	}
+	r.Check(!lost, rule, "pairing:argsToAttrs:value-taken", p.Pos(instrPos(kIf)), "with a key pending, every path builds the pair from the key and the element",
+		"with a key pending a round can end without building the pair: the value is dropped and the key stays pending for the next element")
+}
+
+// loopIndexVaries: a printer that walks a list prints the element of the round: inside a loop no element of a slice
+// parameter is fetched at a constant position (the copy-pasted `val[0]` of the line that prints the first element).
+func loopIndexVaries(c *Ctx, p *Prog, m *Model, rule string) {
+	r := c.R
+	n := 0
+	var bad []string
+	for _, fn := range sortedTree(p, m) {
+		for _, b := range fn.Blocks {
+			if !inLoop(b) {
+				continue
+			}
+			for _, in := range b.Instrs {
+				var x, idx ssa.Value
+				switch y := in.(type) {
+				case *ssa.IndexAddr:
+					x, idx = y.X, y.Index
+				case *ssa.Index:
+					x, idx = y.X, y.Index
+				default:
+					continue
+				}
+				prm, isP := strip(x).(*ssa.Parameter)
+				if !isP {
+					continue
+				}
+				if _, isS := prm.Type().Underlying().(*types.Slice); !isS {
+					continue
+				}
+				n++
+				if _, isC := constInt(idx); isC {
+					bad = append(bad, shortName(fn)+" at "+p.Pos(instrPos(in)))
+				}
+			}
+		}
+	}
+	sort.Strings(bad)
+	if n < 10 {
+		r.Unk(rule, "loop-index-varies", "-", "only %d element fetches from a list parameter inside loops found on the print tree", n)
+		return
+	}
+	r.Check(len(bad) == 0, rule, "loop-index-varies", "-", fmt.Sprintf("the %d element fetches from a list parameter inside loops use the position of the round", n),
+		"inside a loop an element of the list is fetched at a constant position ("+strings.Join(bad, "; ")+"): every round prints the same element instead of its own")
+}
+
+// noRecoverOnSpine: a Panic record ends in the library's own panic: no function between the entry points and the
+// terminating function installs a deferred recover (one that does not re-panic) - it would swallow the termination
+// for the configurations it is armed in.
+func noRecoverOnSpine(c *Ctx, p *Prog, m *Model, rule string) {
+	r := c.R
+	var bad []string
+	n := 0
+	var scan func(fn *ssa.Function, host *ssa.Function)
+	scan = func(fn *ssa.Function, host *ssa.Function) {
+		hasRecover, rePanics := false, false
+		for _, b := range fn.Blocks {
+			for _, in := range b.Instrs {
+				if cs, ok := in.(ssa.CallInstruction); ok && isBuiltinCall(cs, "recover") {
+					hasRecover = true
+				}
+				if _, ok := in.(*ssa.Panic); ok {
+					rePanics = true
+				}
+			}
+		}
+		if hasRecover && !rePanics && fn != host {
+			bad = append(bad, shortName(fn)+" (in "+shortName(host)+") at "+p.FuncPos(fn))
+		}
+		for _, an := range fn.AnonFuncs {
+			scan(an, host)
+		}
+	}
+	var fns []*ssa.Function
+	for fn := range m.Spine {
+		fns = append(fns, fn)
+	}
+	sort.Slice(fns, func(i, j int) bool { return shortName(fns[i]) < shortName(fns[j]) })
+	for _, fn := range fns {
+		if fn.Parent() != nil {
+			continue
+		}
+		n++
+		scan(fn, fn)
+	}
+	sort.Strings(bad)
+	r.Check(len(bad) == 0, rule, "no-recover-on-spine", "-", fmt.Sprintf("none of the %d functions between the entry points and the terminating function installs a swallowing recover", n),
+		"a deferred recover sits between the entry points and the library's own panic ("+strings.Join(bad, "; ")+"): where it is armed, an admitted Panic record is written and the call then returns normally")
+}
+
+// fanoutNoSelfCall (R13.1): handling a member's failure never sends the record through the whole set again: the
+// fan-out Write (and the sink) do not call themselves - a "retry" through the set re-delivers the record to the
+// members that had taken it and recurses without bound for a member that keeps failing.
+func fanoutNoSelfCall(c *Ctx, p *Prog, m *Model, rule string) {
+	r := c.R
+	var fns []*ssa.Function
+	if f := p.Method(p.Slog, "LWs", "Write"); f != nil {
+		fns = append(fns, f)
+	}
+	for f := range m.SinkFns {
+		fns = append(fns, f)
+	}
+	if len(fns) == 0 {
+		r.Unk(rule, "fanout-no-self-call", "-", "fan-out Write / sink not found")
+		return
+	}
+	sort.Slice(fns, func(i, j int) bool { return shortName(fns[i]) < shortName(fns[j]) })
+	var bad []string
+	for _, fn := range fns {
+		for _, cs := range callsIn(fn) {
+			if cal := calleeOf(cs); cal != nil && cal == fn {
+				bad = append(bad, shortName(fn)+" at "+p.Pos(instrPos(cs)))
+			}
+		}
+	}
+	sort.Strings(bad)
+	r.Check(len(bad) == 0, rule, "fanout-no-self-call", "-", fmt.Sprintf("none of the %d delivery functions calls itself", len(fns)),
+		"a delivery function sends the record through itself again ("+strings.Join(bad, "; ")+"): the destinations that had already taken the record get it once more, and a destination that keeps failing recurses without bound")
+}
+
+// optionConsumed (R10.3): an argument of New / newentry that was applied as an option is consumed: within the same
+// round of the argument loop no path leads from the option call to the place where leftover arguments are collected
+// as attribute material (the leftover list, once non-empty, REPLACES the logger's own attributes - also the ones the
+// option has just set).
+func optionConsumed(c *Ctx, p *Prog, rule string) {
+	r := c.R
+	fn := p.Func(p.Slog, "newentry")
+	if fn == nil {
+		r.Unk(rule, "option-consumed:newentry", "-", "newentry not found")
+		return
+	}
+	n := 0
+	var bad []string
+	for _, b := range fn.Blocks {
+		for _, in := range b.Instrs {
+			cs, ok := in.(*ssa.Call)
+			if !ok || cs.Common().IsInvoke() || calleeOf(cs) != nil {
+				continue
+			}
+			ex, isE := cs.Common().Value.(*ssa.Extract)
+			if !isE {
+				continue
+			}
+			ta, isT := ex.Tuple.(*ssa.TypeAssert)
+			if !isT || typeName(ta.AssertedType) != "Opt" || !inLoop(b) {
+				continue
+			}
+			n++
+			h, body := natLoop(b)
+			seen := map[*ssa.BasicBlock]bool{}
+			var dfs func(x *ssa.BasicBlock)
+			hit := ""
+			dfs = func(x *ssa.BasicBlock) {
+				if seen[x] || x == h || !body[x] || hit != "" {
+					return
+				}
+				seen[x] = true
+				for _, in2 := range x.Instrs {
+					if c2, ok := in2.(*ssa.Call); ok && isBuiltinCall(c2, "append") {
+						hit = p.Pos(instrPos(c2))
+						return
+					}
+				}
+				for _, s := range x.Succs {
+					dfs(s)
+				}
+			}
+			for _, s := range b.Succs {
+				dfs(s)
+			}
+			if hit != "" {
+				bad = append(bad, "option applied at "+p.Pos(instrPos(cs))+" reaches the collection at "+hit)
+			}
+		}
+	}
+	if n == 0 {
+		r.Unk(rule, "option-consumed:newentry", p.FuncPos(fn), "no option call inside the argument loop found")
+		return
+	}
+	sort.Strings(bad)
+	r.Check(len(bad) == 0, rule, "option-consumed:newentry", p.FuncPos(fn), "an argument applied as an option is not collected as attribute material as well",
+		"an argument that was applied as an option is also collected as a leftover argument ("+strings.Join(bad, "; ")+"): the leftover list replaces the logger's own attributes, so the attributes an option form (With / WithAttrs in New) has just set are wiped")
+}
+
+// allFieldsOnEveryPath: a method that fills a reused record (Source.Extract on the pooled context's cached Source)
+// stores each field it stores at all on EVERY path to its return: an early return leaves the previous record's
+// values in the fields it skipped.
+func allFieldsOnEveryPath(c *Ctx, p *Prog, rule, typ, method string) {
+	r := c.R
+	fn := p.Method(p.Slog, typ, method)
+	if fn == nil || len(fn.Params) == 0 || len(fn.Blocks) == 0 {
+		r.Unk(rule, "all-fields:"+typ+"."+method, "-", "method not found")
+		return
+	}
+	recv := fn.Params[0]
+	stores := map[string]map[*ssa.BasicBlock]bool{}
+	for _, b := range fn.Blocks {
+		for _, in := range b.Instrs {
+			st, ok := in.(*ssa.Store)
+			if !ok {
+				continue
+			}
+			fa, isF := st.Addr.(*ssa.FieldAddr)
+			if !isF || strip(fa.X) != ssa.Value(recv) {
+				continue
+			}
+			f := fieldOf(fa)
+			if stores[f] == nil {
+				stores[f] = map[*ssa.BasicBlock]bool{}
+			}
+			stores[f][b] = true
+		}
+	}
+	rets, _ := exitBlocks(fn)
+	var bad []string
+	for f, blks := range stores {
+		avoid := func(x *ssa.BasicBlock) bool { return blks[x] }
+		if avoid(fn.Blocks[0]) {
+			continue
+		}
+		for _, rb := range rets {
+			if blks[rb] {
+				continue
+			}
+			if rb == fn.Blocks[0] || reachAvoiding(fn.Blocks[0], rb, avoid) {
+				bad = append(bad, f+" (return at "+p.Pos(instrPos(rb.Instrs[len(rb.Instrs)-1]))+")")
+				break
+			}
+		}
+	}
+	sort.Strings(bad)
+	if len(stores) == 0 {
+		r.Unk(rule, "all-fields:"+typ+"."+method, p.FuncPos(fn), "stores no field of its receiver")
+		return
+	}
+	r.Check(len(bad) == 0, rule, "all-fields:"+typ+"."+method, p.FuncPos(fn), fmt.Sprintf("each of the %d fields it fills is stored on every path", len(stores)),
+		"a return is reachable without the field having been stored: "+strings.Join(bad, ", ")+" - the reused object keeps the previous record's value there")
+}
+
+// fieldOf: the name of the field a FieldAddr addresses.
+func fieldOf(fa *ssa.FieldAddr) string {
+	t := fa.X.Type()
+	if pt, ok := t.Underlying().(*types.Pointer); ok {
+		t = pt.Elem()
+	}
+	if st, ok := t.Underlying().(*types.Struct); ok && fa.Field < st.NumFields() {
+		return st.Field(fa.Field).Name()
+	}
+	return fmt.Sprint(fa.Field)
+}
+
+// searchLoopExits: a search over the children gives up only when the children are exhausted: every early exit of
+// the loop in the named method is taken on the "found" side of a nil test (x != nil), never on the "not found" side.
+func searchLoopExits(c *Ctx, p *Prog, rule, typ, method string) {
+	r := c.R
+	fn := p.Method(p.Slog, typ, method)
+	if fn == nil {
+		r.Unk(rule, "search:"+typ+"."+method, "-", "method not found")
+		return
+	}
+	n := 0
+	var bad []string
+	for _, b := range fn.Blocks {
+		if !inLoop(b) {
+			continue
+		}
+		h, body := natLoop(b)
+		if h == nil || b == h {
+			continue
+		}
+		for k, s := range b.Succs {
+			if body[s] {
+				continue
+			}
+			n++
+			iff := ifOf(b)
+			if iff == nil {
+				bad = append(bad, "unconditional exit at "+p.Pos(instrPos(b.Instrs[len(b.Instrs)-1])))
+				continue
+			}
+			cond, neg := normCond(iff.Cond)
+			bo, ok := cond.(*ssa.BinOp)
+			found := false
+			if ok && (bo.Op == token.NEQ || bo.Op == token.EQL) && (isNilConst(bo.X) || isNilConst(bo.Y)) {
+				nonNilOnTrue := (bo.Op == token.NEQ) != neg
+				found = (k == 0) == nonNilOnTrue
+			}
+			if !found {
+				bad = append(bad, "exit at "+p.Pos(instrPos(iff)))
+			}
+		}
+		if _, isRet := b.Instrs[len(b.Instrs)-1].(*ssa.Return); isRet {
+			// a return inside the loop body: must sit on a found edge; covered through the edge into this block
+			_ = isRet
+		}
+	}
+	sort.Strings(bad)
+	if n == 0 {
+		r.Unk(rule, "search:"+typ+"."+method, p.FuncPos(fn), "no early exit of a search loop found")
+		return
+	}
+	r.Check(len(bad) == 0, rule, "search:"+typ+"."+method, p.FuncPos(fn), fmt.Sprintf("the %d early exits of the search loop are taken when something was found", n),
+		"the search over the children is abandoned although nothing was found ("+strings.Join(bad, "; ")+"): loggers in the subtrees not yet visited are reported as absent")
+}
+
+// separatorIndependentOfMember: whether the member separator is written in front of an attribute depends on the
+// format and on what the buffer ends with, never on the attribute itself: in the loop of serializeAttrs no test that
+// decides a separator call reads the member (its kind, key or value). A group glued to the member before it is
+// invalid JSON.
+func separatorIndependentOfMember(c *Ctx, p *Prog, rule string) {
+	r := c.R
+	sa := p.Func(p.Slog, "serializeAttrs")
+	if sa == nil {
+		r.Unk(rule, "separator:serializeAttrs", "-", "serializeAttrs not found")
+		return
+	}
+	var member ssa.Value
+	for _, cs := range callsIn(sa) {
+		if invokeName(cs) == "Key" && inLoop(cs.Block()) {
+			member = cs.Common().Value
+			break
+		}
+	}
+	if member == nil {
+		r.Unk(rule, "separator:serializeAttrs", p.FuncPos(sa), "no per-member Key() call inside a loop")
+		return
+	}
+	n := 0
+	var bad []string
+	isSep := func(cal *ssa.Function) bool {
+		if cal == nil {
+			return false
+		}
+		if nm(cal) == "pcAppendComma" {
+			return true
+		}
+		// a private helper of the loop that writes the separator itself
+		if cal.Pkg != p.Slog || len(cal.Blocks) > 12 || nm(cal) == "appendValue" || nm(cal) == "serializeAttrs" {
+			return false
+		}
+		for _, c2 := range callsIn(cal) {
+			if k := calleeOf(c2); k != nil && nm(k) == "pcAppendComma" {
+				return true
+			}
+		}
+		return false
+	}
+	for _, cs := range callsIn(sa) {
+		cal := calleeOf(cs)
+		if !isSep(cal) || !inLoop(cs.Block()) {
+			continue
+		}
+		for _, a := range cs.Common().Args {
+			if dependsOn(a, member) {
+				bad = append(bad, p.Pos(instrPos(cs))+" (the member is handed to the separator helper)")
+			}
+		}
+		n++
+		hdr, body := natLoop(cs.Block())
+		for _, d := range sa.Blocks {
+			iff := ifOf(d)
+			if iff == nil || !body[d] || d == hdr || !d.Dominates(cs.Block()) || d == cs.Block() {
+				continue
+			}
+			within := func(x *ssa.BasicBlock) bool { return !body[x] || x == hdr }
+			r0, r1 := reachAvoiding(d.Succs[0], cs.Block(), within), reachAvoiding(d.Succs[1], cs.Block(), within)
+			if r0 && r1 {
+				continue
+			}
+			cond, _ := normCond(iff.Cond)
+			if bo, ok := cond.(*ssa.BinOp); ok && (isNilConst(bo.X) || isNilConst(bo.Y)) {
+				continue // the nil-placeholder skip
+			}
+			if dependsOn(iff.Cond, member) {
+				bad = append(bad, p.Pos(instrPos(iff)))
+			}
+		}
+	}
+	if n == 0 {
+		r.Unk(rule, "separator:serializeAttrs", p.FuncPos(sa), "no member separator call inside the loop")
+		return
+	}
+	sort.Strings(bad)
+	r.Check(len(bad) == 0, rule, "separator:serializeAttrs", p.FuncPos(sa), fmt.Sprintf("the tests deciding the %d member separator call(s) do not read the member", n),
+		"whether the member separator is written depends on the attribute itself (test at "+strings.Join(dedupStr(bad), ", ")+"): a member of that kind is glued to the one before it - invalid JSON / a merged pair")
+}
+
+// sameSource: two values are the same parameter / the same load of one package-level variable / the same SSA value.
+func sameSource(a, b ssa.Value) bool {
+	a, b = strip(a), strip(b)
+	if a == b {
+		return true
+	}
+	if ga, ok := globalLoad(a); ok {
+		if gb, ok2 := globalLoad(b); ok2 {
+			return ga == gb
+		}
+	}
+	return false
+}
+
+// prefixCutAgrees: where a text is tested with strings.HasPrefix(s, k) and then cut at len(y), y is k: cutting by the
+// length of another string (the replacement instead of the matched prefix) keeps or drops bytes of the rest.
+func prefixCutAgrees(c *Ctx, p *Prog, rule string) {
+	r := c.R
+	n := 0
+	var bad []string
+	for _, fn := range p.RepoFuncs() {
+		if fn.Pkg != p.Slog {
+			continue
+		}
+		for _, b := range fn.Blocks {
+			for _, in := range b.Instrs {
+				sl, ok := in.(*ssa.Slice)
+				if !ok || sl.Low == nil {
+					continue
+				}
+				lc, isL := strip(sl.Low).(*ssa.Call)
+				if !isL || !isBuiltinCall(lc, "len") {
+					continue
+				}
+				y := lc.Common().Args[0]
+				// the HasPrefix test on whose true edge we are
+				for _, gd := range guardsOf(b) {
+					cond, neg := normCond(gd.If.Cond)
+					hc, isC := cond.(*ssa.Call)
+					if !isC || (gd.Succ == 0) == neg {
+						continue
+					}
+					cal := calleeOf(hc)
+					if cal == nil || cal.String() != "strings.HasPrefix" {
+						continue
+					}
+					if !sameSource(hc.Common().Args[0], sl.X) {
+						continue
+					}
+					n++
+					if !sameSource(hc.Common().Args[1], y) {
+						bad = append(bad, shortName(fn)+" at "+p.Pos(instrPos(sl)))
+					}
+				}
+			}
+		}
+	}
+	sort.Strings(bad)
+	if n == 0 {
+		r.OkTrivial(rule, "prefix-cut", "-", "no text is cut at the length of a tested prefix (nothing to agree)")
+		return
+	}
+	r.Check(len(bad) == 0, rule, "prefix-cut", "-", fmt.Sprintf("the %d cuts after a HasPrefix test cut at the length of the prefix tested", n),
+		"a text tested for one prefix is cut at the length of another string ("+strings.Join(bad, "; ")+"): bytes of the rest are kept or dropped with the prefix (GHthub.com/... instead of GH/...)")
+}
+
+// pkgForwardersPassArgs: a package-level function that only forwards to the default logger hands its arguments on
+// as given: no arithmetic on a parameter (the frame bookkeeping of the default logger is done by the logger's own
+// methods; "one more frame for the package-level hop" shifts every caller reported afterwards).
+func pkgForwardersPassArgs(c *Ctx, p *Prog, rule string) {
+	r := c.R
+	dl := p.Global(p.Slog, "defaultLog")
+	if dl == nil {
+		r.Unk(rule, "forwarders", "-", "defaultLog not found")
+		return
+	}
+	n := 0
+	var bad []string
+	for _, fn := range p.RepoFuncs() {
+		if fn.Pkg != p.Slog || fn.Parent() != nil || fn.Signature.Recv() != nil || !ast.IsExported(fn.Name()) {
+			continue
+		}
+		for _, cs := range callsIn(fn) {
+			cc := cs.Common()
+			if !cc.IsInvoke() {
+				continue
+			}
+			g, isG := globalLoad(cc.Value)
+			if !isG || g != dl {
+				continue
+			}
+			n++
+			for _, a := range cc.Args {
+				if bo, ok := strip(a).(*ssa.BinOp); ok {
+					for _, prm := range fn.Params {
+						if dependsOn(bo, prm) {
+							bad = append(bad, fn.Name()+" at "+p.Pos(instrPos(cs)))
+						}
+					}
+				}
+			}
+		}
+	}
+	sort.Strings(bad)
+	if n < 2 {
+		r.Unk(rule, "forwarders", "-", "only %d package-level forwarders to the default logger found", n)
+		return
+	}
+	r.Check(len(bad) == 0, rule, "forwarders", "-", fmt.Sprintf("the %d package-level forwarders hand their arguments to the default logger as given", n),
+		"a package-level forwarder changes an argument before handing it to the default logger ("+strings.Join(dedupStr(bad), "; ")+"): the setting differs from what the same call on a logger stores")
+}
+
+// everyRoundCalls: in the named method every round of the loop that contains the call of `callee` passes that call
+// (no element is skipped by a `continue` in front of it).
+func everyRoundCalls(c *Ctx, p *Prog, rule, typ, method, callee, what string) {
+	r := c.R
+	fn := p.Method(p.Slog, typ, method)
+	key := "every-round:" + typ + "." + method
+	if fn == nil {
+		r.Unk(rule, key, "-", "method not found")
+		return
+	}
+	var site ssa.CallInstruction
+	var tree []*ssa.Function
+	for f := range staticReach([]*ssa.Function{fn}, func(f *ssa.Function) bool { return f.Pkg != p.Slog || nm(f) == callee }) {
+		tree = append(tree, f)
+	}
+	sort.Slice(tree, func(i, j int) bool { return shortName(tree[i]) < shortName(tree[j]) })
+	for _, f := range tree {
+		for _, cs := range callsIn(f) {
+			if cal := calleeOf(cs); cal != nil && nm(cal) == callee && inLoop(cs.Block()) && f != cal {
+				site = cs
+			}
+		}
+	}
+	if site == nil {
+		r.Unk(rule, key, p.FuncPos(fn), "no call of %s inside a loop", callee)
+		return
+	}
+	h, body := natLoop(site.Block())
+	skipped := false
+	for _, s := range h.Succs {
+		if !body[s] || s == site.Block() {
+			continue
+		}
+		if reachAvoiding(s, h, func(x *ssa.BasicBlock) bool { return x == site.Block() || !body[x] }) {
+			skipped = true
+		}
+	}
+	r.Check(!skipped, rule, key, p.Pos(instrPos(site)), "every round of the loop passes "+callee, "a round of the loop can end without "+callee+" having been called: "+what)
+}
+
+// noClearOnLists: a package-level list is emptied by storing nil / an empty list: the builtin clear on a slice keeps
+// its length and zeroes the entries, which the readers then dereference.
+func noClearOnLists(c *Ctx, p *Prog, rule string) {
+	r := c.R
+	var bad []string
+	for _, fn := range p.RepoFuncs() {
+		if fn.Pkg != p.Slog {
+			continue
+		}
+		for _, cs := range callsIn(fn) {
+			if !isBuiltinCall(cs, "clear") {
+				continue
+			}
+			a := cs.Common().Args[0]
+			if _, isS := a.Type().Underlying().(*types.Slice); !isS {
+				continue
+			}
+			if _, isG := globalLoad(a); isG {
+				bad = append(bad, shortName(fn)+" at "+p.Pos(instrPos(cs)))
+			}
+		}
+	}
+	sort.Strings(bad)
+	r.Check(len(bad) == 0, rule, "no-clear-on-lists", "-", "no package-level list is emptied with the builtin clear", "a package-level list is \"emptied\" with clear() ("+strings.Join(bad, "; ")+"): on a slice that keeps the length and zeroes the entries - the rules stay in the list as nil entries and the next path check dereferences them")
+}
+
+// deleteUnderFound: the statement that cuts an entry out of a package-level list runs only on the "found" edge of the
+// comparison with the argument: a default position shared with "not found" deletes another entry.
+func deleteUnderFound(c *Ctx, p *Prog, rule, fname, gname string) {
+	r := c.R
+	fn := p.Func(p.Slog, fname)
+	g := p.Global(p.Slog, gname)
+	key := "delete-under-found:" + fname
+	if fn == nil || g == nil {
+		r.Unk(rule, key, "-", "%s / %s not found", fname, gname)
+		return
+	}
+	n := 0
+	var bad []string
+	for _, b := range fn.Blocks {
+		for _, in := range b.Instrs {
+			st, ok := in.(*ssa.Store)
+			if !ok || st.Addr != ssa.Value(g) {
+				continue
+			}
+			if isNilConst(st.Val) {
+				continue
+			}
+			n++
+			found := false
+			for _, gd := range guardsOf(b) {
+				cond, neg := normCond(gd.If.Cond)
+				bo, isB := cond.(*ssa.BinOp)
+				if !isB || (bo.Op != token.EQL && bo.Op != token.NEQ) {
+					continue
+				}
+				dep := false
+				for _, prm := range fn.Params {
+					if dependsOn(bo, prm) {
+						dep = true
+					}
+				}
+				eqOnTrue := (bo.Op == token.EQL) != neg
+				if dep && (gd.Succ == 0) == eqOnTrue {
+					found = true
+				}
+			}
+			if !found {
+				bad = append(bad, p.Pos(instrPos(st)))
+			}
+		}
+	}
+	if n == 0 {
+		r.Unk(rule, key, p.FuncPos(fn), "no store to %s", gname)
+		return
+	}
+	sort.Strings(bad)
+	r.Check(len(bad) == 0, rule, key, p.FuncPos(fn), "the list is only rewritten on the edge where the entry compared equal to the argument",
+		"the list is rewritten at "+strings.Join(bad, ", ")+" although no entry compared equal to the argument on that path: removing a pattern that is not registered removes another rule")
+}
+
+// tagLookupHitOnly: Level.ShortTag returns an entry of the tag tables only when the table HAS an entry for the
+// level: a plain m[k] returns "" on a miss (a level without tags of its own would get a zero-width tag).
+func tagLookupHitOnly(c *Ctx, p *Prog, rule string) {
+	r := c.R
+	fn := p.Method(p.Slog, "Level", "ShortTag")
+	if fn == nil {
+		r.Unk(rule, "Level.ShortTag:lookup-hit", "-", "Level.ShortTag not found")
+		return
+	}
+	n := 0
+	var bad []string
+	rets, _ := exitBlocks(fn)
+	for _, b := range rets {
+		ret := b.Instrs[len(b.Instrs)-1].(*ssa.Return)
+		if len(ret.Results) != 1 {
+			continue
+		}
+		var lks []struct {
+			lk  *ssa.Lookup
+			blk *ssa.BasicBlock
+		}
+		seen := map[ssa.Value]bool{}
+		var walk func(v ssa.Value, at *ssa.BasicBlock)
+		walk = func(v ssa.Value, at *ssa.BasicBlock) {
+			if v == nil || seen[v] {
+				return
+			}
+			seen[v] = true
+			switch x := v.(type) {
+			case *ssa.Phi:
+				for i, e := range x.Edges {
+					walk(e, x.Block().Preds[i])
+				}
+			case *ssa.Extract:
+				if lk, ok := x.Tuple.(*ssa.Lookup); ok && x.Index == 0 {
+					lks = append(lks, struct {
+						lk  *ssa.Lookup
+						blk *ssa.BasicBlock
+					}{lk, at})
+				}
+			case *ssa.Lookup:
+				if _, isM := x.X.Type().Underlying().(*types.Map); isM {
+					lks = append(lks, struct {
+						lk  *ssa.Lookup
+						blk *ssa.BasicBlock
+					}{x, at})
+				}
+			}
+		}
+		walk(ret.Results[0], b)
+		for _, l := range lks {
+			n++
+			okGuard := false
+			if l.lk.CommaOk {
+				for _, gd := range append(guardsOf(l.blk), guardsOf(b)...) {
+					cond, neg := normCond(gd.If.Cond)
+					if ex, ok := cond.(*ssa.Extract); ok && ex.Tuple == ssa.Value(l.lk) && ex.Index == 1 && (gd.Succ == 0) != neg {
+						okGuard = true
+					}
+				}
+			}
+			if !okGuard {
+				bad = append(bad, p.Pos(instrPos(l.lk)))
+			}
+		}
+	}
+	if n == 0 {
+		r.Unk(rule, "Level.ShortTag:lookup-hit", p.FuncPos(fn), "no table entry returned")
+		return
+	}
+	sort.Strings(bad)
+	r.Check(len(bad) == 0, rule, "Level.ShortTag:lookup-hit", p.FuncPos(fn), fmt.Sprintf("the %d table entries returned are returned on the hit edge of their lookup", n),
+		"a tag table entry is returned without the lookup having hit (at "+strings.Join(bad, ", ")+"): a level without an entry of its own gets the empty string - a tag of 0 characters instead of `length`")
 }
